@@ -454,6 +454,9 @@ func (f *Factory) Bin(op Op, a, b *Term) *Term {
 			if b.c == 1 {
 				return a
 			}
+			if b.c == m && w > 1 { // x * -1: negation (much cheaper than a product for the integer back end)
+				return f.Neg(a)
+			}
 		}
 	case OpAnd:
 		if a.op == OpConst {
@@ -465,6 +468,14 @@ func (f *Factory) Bin(op Op, a, b *Term) *Term {
 			}
 			if b.c == m {
 				return a
+			}
+			// x & (2^k-1): extract and zero-extend (identical for bit-blasting, and plain
+			// mod 2^k for the integer back end instead of a bit-by-bit sum)
+			if b.c&(b.c+1) == 0 && w > 1 {
+				k := uint8(bits.Len64(b.c))
+				if k >= 1 && k < w {
+					return f.Resize(f.Resize(a, k, false), w, false)
+				}
 			}
 		}
 		if a == b {
